@@ -18,6 +18,15 @@ CHECKS = {
             "the model only; byte templates per request kind are trusted concretisations.",
             "TLA+ spec + TLC (exhaustive + simulate generation), replay into real server, TLC trace validation",
             "DESIGN.md §3 C10"),
+    "C17": ("model_checking",
+            "Decoder.tla is checked exhaustively by TLC (InBounds, NoProgressOnError, ErrorSticky, AdvanceExact) over 7 byte "
+            "patterns x lengths 0..6 and size arguments -3..8; TLC prints every transition of the reachable graph and each "
+            "becomes one implementation test on the real services/decoder (return value, cursor, error flag, no panic); the "
+            "table is then the oracle for all operation sequences up to length 3 (quick) / 4 (thorough) and seeded long ones.",
+            "The decoder is assumed to have no state beyond (buffer, cursor, error flag) - which the exhaustive sequences "
+            "check; values are compared through fmt of the Go results.",
+            "TLA+ spec + TLC exhaustive, one implementation test per model transition, model table as oracle for exhaustive sequences",
+            "DESIGN.md §3 C17"),
 }
 
 NOT_YET = "check not built yet in this session (see DESIGN.md §10 for the order of construction)"
